@@ -3,12 +3,16 @@ package main
 // collect lists every fact extracted from the source.
 func collect() {
 	// C15 / C09: header widths of the fixed-width multiplexers
-	constInt("p/p2pmux", "size", "unused_size") // placeholder replaced below
-	delete(out.Consts, "unused_size")
 	funcLocalConst("p/p2pmux", "uint16MuxFunc", "size", "mux_u16_hdr")
 	funcLocalConst("p/p2pmux", "uint32MuxFunc", "size", "mux_u32_hdr")
 	funcLocalConst("p/p2pmux", "uint64MuxFunc", "size", "mux_u64_hdr")
 	funcLocalConst("p/p2pmux", "uint16DemuxFunc", "size", "demux_u16_hdr")
 	funcLocalConst("p/p2pmux", "uint32DemuxFunc", "size", "demux_u32_hdr")
 	funcLocalConst("p/p2pmux", "uint64DemuxFunc", "size", "demux_u64_hdr")
+
+	// C20: candidate widths handed to dhtIterate, and the find-node answer cap
+	callArg("p/kademlia", "DHTFindNode", "dhtIterate", 2, "dht_find_width")
+	callArg("p/kademlia", "DHTGet", "dhtIterate", 2, "dht_get_width")
+	callArg("p/kademlia", "DHTJoin", "dhtIterate", 2, "dht_join_width_expr")
+	callArg("p/kademlia", "DHTPut", "dhtIterate", 2, "dht_put_width_expr")
 }
